@@ -154,7 +154,7 @@ def _enum(tier, shard, nshards):
 
 
 PHASES = [
-    HypPhase("dyadic", _case, dict(quick=6000, thorough=80000)),
+    HypPhase("dyadic", _case, dict(quick=10000, thorough=80000)),
     EnumPhase("small", _enum,
               lambda tier: "pwc/pwl on [0,4], all 8 breakpoint subsets of {1,2,3}, every "
                            "interval [a/2,b/2] (plus its bisection chain), all 9 "
